@@ -80,7 +80,8 @@ def impl(case):
     sites = Structure(lattice=lat, species=['Li'] * len(case['sites8']), coords=np.array(case['sites8'], dtype=float) / 8,
                       labels=[LABELS[k] for k in case['labels']])
     out = {}
-    radius = case['radius']
+    import copy
+    radius = copy.deepcopy(case['radius'])
     if case['mode'] == 'auto':
         amp = TrajectoryMetrics(traj).vibration_amplitude()
         try:
@@ -91,6 +92,11 @@ def impl(case):
         tr = traj.transitions_between_sites(sites, 'Li', site_radius=radius, site_inner_fraction=case['frac'])
         out['states'] = tr.states.tolist()
         out['inner'] = tr.inner_states.tolist()
+        # the same argument objects are reused for a second analysis: same answer, arguments untouched
+        out['radius_arg_changed'] = radius != case['radius']
+        tr2 = traj.transitions_between_sites(sites, 'Li', site_radius=radius, site_inner_fraction=case['frac'])
+        out['second_call_same'] = bool(np.array_equal(tr2.states, tr.states) and np.array_equal(tr2.inner_states, tr.inner_states))
+        radius = copy.deepcopy(case['radius'])
     except ValueError as e:
         if 'too close' in str(e):
             return {'too_close': str(e)[:80]}
@@ -166,6 +172,10 @@ def oracle(case, out):
     if 'states' not in out:
         return [('c02/harness-error', f"{out.get('error')}: {out.get('msg')} {out.get('tb', '')[-500:]}")]
     fs = []
+    if out.get('radius_arg_changed'):
+        fs.append(('sites/radius-argument-mutated', f'the site_radius argument {case["radius"]} was modified by the analysis (inner fraction {case["frac"]})'))
+    if out.get('second_call_same') is False:
+        fs.append(('sites/second-analysis-differs', f'a second analysis with the same argument objects gives different states (radius {case["radius"]}, inner fraction {case["frac"]})'))
     an = _analyse(case, out)
     D19 = ('sites/pkdtree-misses-neighbour', 'MDAnalysis PeriodicKDTree (float32) returns a different neighbour set than its own brute-force search for this configuration '
            '(a site exactly on a face of a skewed cell is wrapped to an image outside the primary cell): ')
